@@ -11,6 +11,7 @@ import (
 	"google.golang.org/grpc/status"
 
 	"github.com/buchgr/bazel-remote/v2/cache"
+	"github.com/buchgr/bazel-remote/v2/utils/validate"
 	"github.com/buchgr/bazel-remote/v2/zzverif/vmodel"
 	"github.com/buchgr/bazel-remote/v2/zzverif/vsym"
 
@@ -141,4 +142,176 @@ func VerifGetActionResultMiss() {
 	vsym.Assert(r2 == nil && e2 != nil, "ac/C14-nil-request-rejected")
 	r3, e3 := s.GetActionResult(context.Background(), &pb.GetActionResultRequest{})
 	vsym.Assert(r3 == nil && e3 != nil, "ac/C14-nil-digest-rejected")
+}
+
+// vUploadedResult builds the ActionResult of an upload: one defect class
+// (or none) chosen by the solver, inline fields of symbolic length.
+func vUploadedResult(c *vCache) (ar *pb.ActionResult, valid bool, stdoutLen int64, fileLen int64) {
+	ar = &pb.ActionResult{ExitCode: 7}
+	valid = true
+	file := &pb.OutputFile{Path: "out/f", Digest: &pb.Digest{Hash: vHashC, SizeBytes: 5}}
+	ar.OutputFiles = []*pb.OutputFile{file}
+	ar.OutputDirectories = []*pb.OutputDirectory{{Path: "out/d", TreeDigest: &pb.Digest{Hash: vHashB, SizeBytes: 3}}}
+	ar.OutputSymlinks = []*pb.OutputSymlink{{Path: "out/l", Target: "f"}}
+	switch vsym.Choose("defect", 14) {
+	case 0:
+	case 1:
+		return nil, false, 0, 0
+	case 2:
+		ar.OutputFiles = []*pb.OutputFile{file, nil}
+		valid = false
+	case 3:
+		file.Path = ""
+		valid = false
+	case 4:
+		file.Path = "/abs/f"
+		valid = false
+	case 5:
+		file.Digest = nil
+		valid = false
+	case 6:
+		file.Digest.SizeBytes = vsym.Int64("neg")
+		vsym.Assume(file.Digest.SizeBytes < 0)
+		valid = false
+	case 7:
+		file.Digest.Hash = vHashC[:63] + "G"
+		valid = false
+	case 8:
+		ar.StdoutDigest = &pb.Digest{Hash: vHashB[:62], SizeBytes: 1}
+		valid = false
+	case 9:
+		ar.StderrDigest = &pb.Digest{Hash: vHashB, SizeBytes: -1}
+		valid = false
+	case 10:
+		ar.OutputDirectories = append(ar.OutputDirectories, nil)
+		valid = false
+	case 11:
+		ar.OutputDirectories[0].TreeDigest = nil
+		valid = false
+	case 12:
+		ar.OutputSymlinks[0].Target = ""
+		valid = false
+	case 13:
+		ar.OutputDirectories[0].Path = "/abs/d"
+		valid = false
+	}
+	if !valid {
+		return ar, false, 0, 0
+	}
+	if vsym.Choose("stdout-inline", 2) == 1 {
+		stdoutLen = vsym.Int64("stdout-len")
+		vsym.Assume(stdoutLen >= 1)
+		vsym.Assume(stdoutLen <= 4<<20)
+		ar.StdoutRaw = vBytesOf("stdout", stdoutLen)
+		vmodel.Blobs = append(vmodel.Blobs, &vmodel.BlobSpec{Stream: "stdout", Hash: vHashB, N: stdoutLen, D: stdoutLen})
+		c.good["stdout"] = true
+		if vsym.Choose("stdout-digest-given", 2) == 1 {
+			ar.StdoutDigest = &pb.Digest{Hash: vHashB, SizeBytes: stdoutLen}
+		}
+	}
+	if vsym.Choose("file-inline", 2) == 1 {
+		fileLen = vsym.Int64("file-len")
+		vsym.Assume(fileLen >= 1)
+		vsym.Assume(fileLen <= 4<<20)
+		file.Contents = vBytesOf("file", fileLen)
+		file.Digest.SizeBytes = fileLen
+		c.good["file"] = true
+	}
+	return ar, true, stdoutLen, fileLen
+}
+
+func vCountPuts(c *vCache, kind cache.EntryKind, hash string) (n int, last *vPutRec) {
+	for _, p := range c.puts {
+		if p.kind == kind && p.hash == hash {
+			n++
+			last = p
+		}
+	}
+	return
+}
+
+// vCheckStoredResult: what was put under the action key is the serialisation
+// of the uploaded message with at most the worker name filled in.
+func vCheckStoredResult(c *vCache, key string, up *pb.ActionResult, hadWorker string, stdoutLen, fileLen int64) {
+	n, p := vCountPuts(c, cache.AC, key)
+	vsym.Assert(n == 1 && p != nil && p.err == nil, "ac/C11-accepted-upload-stored-once-under-its-key")
+	if n != 1 || p == nil {
+		return
+	}
+	var rec *vmodel.MarshalRec
+	for _, m := range vmodel.Marshalled {
+		if m.Src == p.src {
+			rec = m
+		}
+	}
+	okBytes := rec != nil && p.contig && p.srcOff == 0 && p.got == rec.Len && p.size == rec.Len
+	vsym.Assert(okBytes, "ac/C11-stored-bytes-are-a-whole-serialised-message")
+	if rec == nil {
+		return
+	}
+	st, isAR := rec.Snap.(*pb.ActionResult)
+	vsym.Assert(isAR && st != nil, "ac/C11-stored-message-is-an-action-result")
+	if !isAR || st == nil {
+		return
+	}
+	vsym.Assert(validate.ActionResult(st) == nil, "ac/C11-stored-message-validates")
+	same := st.ExitCode == 7 && len(st.OutputFiles) == 1 && st.OutputFiles[0] != nil &&
+		len(st.OutputDirectories) == 1 && len(st.OutputSymlinks) == 1
+	vsym.Assert(same, "ac/C11-stored-message-has-the-uploaded-fields")
+	if !same {
+		return
+	}
+	f := st.OutputFiles[0]
+	vsym.Assert(f.Path == "out/f" && f.Digest != nil && f.Digest.Hash == vHashC, "ac/C11-stored-output-file-unchanged")
+	vsym.Assert(int64(len(f.Contents)) == fileLen, "ac/C11-stored-file-contents-unchanged")
+	vsym.Assert(int64(len(st.StdoutRaw)) == stdoutLen, "ac/C11-stored-stdout-unchanged")
+	if stdoutLen > 0 {
+		src, off, ok := vsym.Prov(st.StdoutRaw)
+		vsym.Assert(ok && src == "stdout" && off == 0, "ac/C11-stored-stdout-bytes-unchanged")
+	}
+	vsym.Assert(st.OutputDirectories[0].Path == "out/d" && st.OutputSymlinks[0].Target == "f", "ac/C11-stored-dirs-and-symlinks-unchanged")
+	okMeta := st.ExecutionMetadata != nil && st.ExecutionMetadata.Worker != ""
+	vsym.Assert(okMeta, "ac/C11-worker-name-filled-in")
+	if okMeta && hadWorker != "" {
+		vsym.Assert(st.ExecutionMetadata.Worker == hadWorker, "ac/C11-given-worker-name-kept")
+	}
+}
+
+func VerifUpdateActionResult() {
+	c := &vCache{maxBlobSize: 1 << 40, good: map[string]bool{}}
+	s := vNewServer(c)
+	ar, valid, stdoutLen, fileLen := vUploadedResult(c)
+	worker := ""
+	if ar != nil && vsym.Choose("worker-given", 2) == 1 {
+		worker = "builder-7"
+		ar.ExecutionMetadata = &pb.ExecutedActionMetadata{Worker: worker}
+	}
+	req := &pb.UpdateActionResultRequest{ActionDigest: &pb.Digest{Hash: vHashA, SizeBytes: 9}, ActionResult: ar}
+
+	res, err := s.UpdateActionResult(context.Background(), req)
+
+	vsym.Reach("update-action-result-returned")
+	if !valid {
+		vsym.Reach("update-invalid")
+		vsym.Assert(err != nil, "ac/C11-invalid-action-result-accepted")
+		vsym.Assert(len(c.puts) == 0, "ac/C11-rejected-upload-stored-something")
+		return
+	}
+	// every Put succeeds in this harness
+	vsym.Assert(err == nil && res != nil, "ac/C11-valid-action-result-refused")
+	if err != nil {
+		return
+	}
+	vsym.Reach("update-accepted")
+	vCheckStoredResult(c, vHashA, ar, worker, stdoutLen, fileLen)
+	if stdoutLen > 0 {
+		n, p := vCountPuts(c, cache.CAS, vHashB)
+		ok := n == 1 && p.err == nil && p.size == stdoutLen && p.src == "stdout" && p.contig && p.srcOff == 0
+		vsym.Assert(ok, "ac/C11-inline-stdout-also-stored-in-the-CAS-under-its-digest")
+	}
+	if fileLen > 0 {
+		n, p := vCountPuts(c, cache.CAS, vHashC)
+		ok := n == 1 && p.err == nil && p.size == fileLen && p.src == "file" && p.contig && p.srcOff == 0
+		vsym.Assert(ok, "ac/C11-inline-file-also-stored-in-the-CAS-under-its-digest")
+	}
 }
